@@ -25,7 +25,7 @@ AXES = (("z", "dz", 0), ("y", "dy", 1), ("x", "dx", 2))
 
 
 def requests():
-    return [Request(src, fn=["stir::%s::.*" % cls], files=["/repo/" + re.escape(src), "/repo/src/include/stir/recon_buildblock/%s\\.h" % cls]) for cls, src in PRIORS]
+    return [Request(src, fn=["stir::%s::.*" % cls], rec=["stir::%s" % cls], files=["/repo/" + re.escape(src), "/repo/src/include/stir/recon_buildblock/%s\\.h" % cls]) for cls, src in PRIORS]
 
 
 def insts(u):
@@ -327,12 +327,23 @@ def summand(ctx, f, helpers, sgn):
 
 
 def scale_of(f, accd):
-    """multiplier applied to the accumulated sum: `return acc * pf [/ 2]`  or  `out[z][y][x] = acc * pf`"""
-    alg = Algebra(f, names=False, inline=False)
+    """multiplier applied to the accumulated sum: `return acc * pf [/ 2]`  or  `out[z][y][x] = acc * pf`, also when the scaled value
+    passes through locals that are defined once.  Returns None when no single such result expression is found (not recognised)."""
+    alg = Algebra(f, names=False, inline=True)
+    defs = alg.defs
     cands = []
 
-    def mentions(n):
-        return any(m.k == "DeclRefExpr" and m.get("d") == accd for m in n.walk())
+    def mentions(n, depth=0):
+        for m in n.walk():
+            if m.k != "DeclRefExpr":
+                continue
+            if m.get("d") == accd:
+                return True
+            if m.get("dk") == "local" and depth < 6:
+                init = defs.single_def(m.get("d"))
+                if init is not None and mentions(init, depth + 1):
+                    return True
+        return False
 
     for m in f.walk():
         if m.k == "ReturnStmt" and m.c and mentions(m.c[0]):
@@ -375,7 +386,10 @@ def rule_bc(ctx, cls, fns):
     sg = scale_of(cg[0], G["accd"])
     pfs = [s for s in (sv.free_symbols if sv is not None else set()) if "penalisation_factor" in s.name]
     for what, sc, f in (("value", sv, cv[0]), ("gradient", sg, cg[0])):
-        ok = sc is not None and len([s for s in sc.free_symbols if "penalisation_factor" in s.name]) == 1 and sympy.degree(sc, [s for s in sc.free_symbols if "penalisation_factor" in s.name][0]) == 1
+        if sc is None:
+            ctx.unrec(f.qn, "C09.b: the one place where the accumulated sum becomes the result (return / out[z][y][x] = sum * factor, linear in the sum) was not found")
+            continue
+        ok = len([s for s in sc.free_symbols if "penalisation_factor" in s.name]) == 1 and sympy.degree(sc, [s for s in sc.free_symbols if "penalisation_factor" in s.name][0]) == 1
         ctx.ob("C09.b-weights-kappa-penalisation", "stir::%s::compute_%s" % (cls, what), "penalisation-factor-once", ok, f.where(), "result = sum * (%s)" % sc if ok else "the accumulated sum is not multiplied exactly once by penalisation_factor (%s)" % sc)
     for what, S, f in (("value", V, cv[0]), ("gradient", G, cg[0])):
         w = S["alg"].sym("w")
@@ -665,6 +679,260 @@ def rule_d_hessian_times_input(ctx, cls, fns):
     return n
 
 
+# ------------------------------------------------------------------------------------------------ g
+def rule_g_assigned_output_complete(ctx, cls, fns):
+    """A member function that ASSIGNS its result voxel by voxel (out[z][y][x] = ..., as compute_gradient does - the documented contract
+    is that the whole output is overwritten) must do so in every iteration of its voxel loops: no path through the body of an
+    enclosing loop may skip the store (a `continue`, a conditional store).  Functions that accumulate (+=) may skip summands that are
+    zero; an assigning one leaves whatever the caller's image contained (seed C09-5).  Not required when the output is filled
+    unconditionally before the loops."""
+    RULE = "C09.g-assigned-output-covers-every-voxel"
+    n = 0
+    for f in fns:
+        if f.cls != "stir::" + cls and not (f.cls or "").endswith(cls):
+            continue
+        if f.short not in ("compute_gradient", "parabolic_surrogate_curvature", "compute_Hessian"):
+            continue  # the interface whose result is defined for every voxel; private helpers may rely on outputs their callers zeroed
+        outs = [p for p in f.params if "&" in (p.get("t") or "") and not (p.get("t") or "").lstrip().startswith("const") and re.search(r"DiscretisedDensity<|Array<", p.get("t") or "")]
+        if not outs or not f.cfg_raw:
+            continue
+        defs = LocalDefs(f)
+        alias = {}
+        for d, vd in defs.decl.items():
+            if (vd.get("t") or "").rstrip().endswith("&") and vd.c:
+                ps = {m.get("d") for m in vd.c[0].walk() if m.k == "DeclRefExpr" and m.get("dk") == "param"}
+                for o in outs:
+                    if o["d"] in ps:
+                        alias[d] = o["d"]
+        cfg = None
+        for o in outs:
+            ok_roots = {o["d"]} | {d for d, t in alias.items() if t == o["d"]}
+
+            def is_store(m):
+                if not (m.k in ("BinaryOperator", "CXXOperatorCallExpr") and m.op == "=" and len(m.c) >= 2):
+                    return False
+                r, idx = _chain(m.c[0])
+                return bool(idx) and r.k == "DeclRefExpr" and r.get("d") in ok_roots
+
+            stores = [m for m in f.walk() if is_store(m)]
+            if not stores:
+                continue
+            if cfg is None:
+                cfg = CFG(f)
+            # an unconditional fill of the output before the loops makes skipped voxels well defined (zero)
+            fills = [c for c in f.calls() if (c.callee or "").split("::")[-1] == "fill" and c.call_object() is not None and c.call_object().strip().k == "DeclRefExpr" and c.call_object().strip().get("d") in ok_roots and c.i in cfg.pos]
+            nests = {}
+            for st in stores:
+                loops = [a for a in st.ancestors() if a.k == "ForStmt"]
+                if loops:
+                    nests.setdefault(loops[-1].i, (loops, []))[1].append(st)
+            for _outer, (loops, sts) in sorted(nests.items()):
+                # innermost loop common to the stores of this nest
+                loops = [l for l in loops if all(l.i in {a.i for a in s_.ancestors()} for s_ in sts)]
+                if not loops:
+                    continue
+                if any(all(cfg.dominates(fl, s_) for s_ in sts) for fl in fills):
+                    continue
+                chain = list(reversed(loops))  # outermost first
+                bad = None
+                shape = True
+                for i, L in enumerate(chain):
+                    if len(L.c) != 4 or L.c[1] is None or L.c[2] is None:
+                        shape = False
+                        break
+                    cond, inc = L.c[1].strip(), L.c[2].strip()
+                    cpos = cfg.pos.get(cond.i) or cfg.pos.get(L.c[1].i)
+                    if cpos is None or (inc.i not in cfg.pos and L.c[2].i not in cfg.pos):
+                        shape = False
+                        break
+                    inc_ids = {inc.i, L.c[2].i}
+                    if i + 1 < len(chain):
+                        nxt = chain[i + 1]
+                        if len(nxt.c) != 4 or nxt.c[1] is None:
+                            shape = False
+                            break
+                        stop_ids = {nxt.c[1].i, nxt.c[1].strip().i}
+                        w = cfg.paths_avoiding([cpos], lambda x, s_=stop_ids: x.i in s_, target_pred=lambda x, t=inc_ids: x.i in t, to_exit=False)
+                    else:
+                        w = cfg.paths_avoiding([cpos], is_store, target_pred=lambda x, t=inc_ids: x.i in t, to_exit=False)
+                    if w is not None:
+                        bad = L
+                        break
+                if not shape:
+                    ctx.unrec(f.qn, "C09.g: loop around the stores to `%s` at line %d is not a for(init; cond; inc) loop found in the CFG" % (o.get("n"), sts[0].line))
+                    continue
+                v = key(chain[-1].c[1].strip().c[0].strip(), True) if chain[-1].c[1].strip().c else "?"
+                ctx.ob(RULE, f.qn.split("<")[0] + "/%d" % len(f.params), "%s@loop-over-%s" % (o.get("n"), v), bad is None, sts[0].where(), ("every iteration of the %d enclosing loop(s) assigns `%s[..]` (line %s)" % (len(chain), o.get("n"), sorted({s_.line for s_ in sts}))) if bad is None else ("`%s` is assigned element by element (line %d) but an iteration of the loop at line %d can end without the assignment: those elements keep what the caller's image contained, although the function's result is defined for every voxel (gradient = derivative of the value there, zero for a uniform image)" % (o.get("n"), sts[0].line, bad.line)))
+                n += 1
+    return n
+
+
+# ------------------------------------------------------------------------------------------------ h, i, j (PLSPrior and the family)
+PLS_SRC = D + "PLSPrior.cxx"
+
+
+def pls_request():
+    return Request(PLS_SRC, fn=["stir::PLSPrior::.*"], rec=["stir::PLSPrior"], files=["/repo/" + re.escape(PLS_SRC), "/repo/src/include/stir/recon_buildblock/PLSPrior\\.h"])
+
+
+def rule_h_pls_kappa_travels_with_the_flux(ctx, fns):
+    """PLS: value = sum_j kappa_j * penalty_j, and penalty_j depends on image[j] and image[j+e_d].  So d value / d image[k] contains
+    kappa at k AND at the neighbours k-e_d: in compute_gradient the kappa factor must reach the stored gradient through an element
+    that is read at a SHIFTED subscript (the flux kappa_j*(...)/penalty_j, differenced), not only as a factor at the voxel itself
+    (kappa outside the divergence is right for a uniform kappa only - F64)."""
+    RULE = "C09.h-pls-kappa-inside-the-divergence"
+    cg = [f for f in fns if f.short == "compute_gradient" and len(f.params) == 2 and f.body is not None]
+    if not cg:
+        ctx.fail_broken("C09.h: PLSPrior::compute_gradient not found")
+        return 0
+    f = cg[0]
+    defs = LocalDefs(f)
+    out = "v%d" % f.params[0]["d"]
+
+    def base_key(n):
+        r, idx = _chain(n)
+        return key(r), idx
+
+    # element stores: array key -> [(store node, rhs)]
+    stores = {}
+    for m in f.walk():
+        if m.k in ("BinaryOperator", "CXXOperatorCallExpr", "CompoundAssignOperator") and (m.op or "") in ("=", "*=", "+=", "-=", "/=") and len(m.c) >= 2:
+            bk, idx = base_key(m.c[0])
+            if len(idx) == 3:
+                stores.setdefault(bk, []).append((m, m.c[1]))
+
+    def reads(e):
+        """(array key, shifted?) of every 3-subscript element read in e, following scalar locals"""
+        res = []
+        seen = set()
+        todo = [e]
+        while todo:
+            x = todo.pop()
+            for m in x.walk():
+                if m.k in ("CXXOperatorCallExpr", "ArraySubscriptExpr") and (m.k == "ArraySubscriptExpr" or m.op == "[]"):
+                    bk, idx = base_key(m)
+                    if len(idx) == 3 and (m.parent is None or not (m.parent.k in ("CXXOperatorCallExpr", "ArraySubscriptExpr") and m.parent.c and m.parent.c[0].strip() is m)):
+                        res.append((bk, any(re.search(r"\((\+|-) ", key(i)) for i in idx)))
+                if m.k == "DeclRefExpr" and m.get("dk") == "local" and m.get("d") not in seen:
+                    seen.add(m.get("d"))
+                    todo.extend(defs.all_defs(m.get("d")))
+        return res
+
+    # does kappa reach `out` through a shifted read?  propagate "carries kappa" over arrays
+    carries = {}  # array key -> True if an element store of it depends on kappa
+    changed = True
+    while changed:
+        changed = False
+        for bk, lst in stores.items():
+            if carries.get(bk):
+                continue
+            for _m, rhs in lst:
+                rd = reads(rhs)
+                if any("kappa_ptr" in k_ for k_, _s in rd) or any(carries.get(k_) for k_, _s in rd):
+                    carries[bk] = True
+                    changed = True
+                    break
+    shifted = False
+    direct_only = False
+    for _m, rhs in stores.get(out, []):
+        for k_, sh in reads(rhs):
+            if (carries.get(k_) or "kappa_ptr" in k_) and sh:
+                shifted = True
+    # the intermediate arrays: a kappa-carrying array read shifted anywhere on the way to the output
+    for bk, lst in stores.items():
+        if bk == out or not any(k_ == bk for _m2, r2 in stores.get(out, []) for k_, _s in reads(r2)) and not carries.get(bk):
+            continue
+        for _m, rhs in lst:
+            for k_, sh in reads(rhs):
+                if (carries.get(k_) or "kappa_ptr" in k_) and sh:
+                    shifted = True
+    uses_kappa = bool(carries.get(out)) or any("kappa_ptr" in k_ for _m, r in stores.get(out, []) for k_, _s in reads(r))
+    if not uses_kappa:
+        ctx.unrec(f.qn, "C09.h: no kappa factor reaches the stored gradient")
+        return 0
+    ctx.ob(RULE, f.qn.split("<")[0], "kappa@shifted-subscript", shifted, f.where(), "the kappa factor reaches the stored gradient through elements read at shifted subscripts (the flux of the neighbours carries their kappa)" if shifted else "kappa multiplies the gradient at the voxel itself only: the value is sum_j kappa_j*penalty_j, whose derivative with respect to voxel k contains kappa of the neighbours k-e_d as well; for a spatially varying kappa the gradient is not the derivative of the value")
+    return 1
+
+
+def rule_i_convex_priors_have_hessians(ctx, records, fns_by_cls):
+    """A prior whose is_convex() can return true takes part in the Hessian clauses of C09: it must declare compute_Hessian and
+    accumulate_Hessian_times_input itself (GeneralisedPrior's defaults only report an error)."""
+    RULE = "C09.i-convex-prior-implements-its-hessian"
+    n = 0
+    seen = set()
+    for r in records:
+        cls = r.get("qn")
+        if cls in seen or r.get("template") and any(x.get("qn") == cls and not x.get("template") for x in records):
+            continue
+        seen.add(cls)
+        meths = {m.get("n") for m in r.get("methods", [])}
+        if "is_convex" not in meths:
+            continue
+        conv = [f for f in fns_by_cls.get(cls, []) if f.short == "is_convex" and f.body is not None]
+        if not conv:
+            ctx.unrec(cls, "C09.i: body of is_convex() not found")
+            continue
+        rets = [m for m in conv[0].walk() if m.k == "ReturnStmt" and m.c]
+        can_be_true = any(key(m.c[0].strip()) != "false" for m in rets)
+        if not can_be_true:
+            continue
+        for need in ("compute_Hessian", "accumulate_Hessian_times_input"):
+            ok = need in meths
+            ctx.ob(RULE, cls, need, ok, "%s:%s" % (r.get("file"), r.get("line")), "declares %s" % need if ok else "is_convex() returns true but the class does not declare %s: the inherited default reports an error, so `Hessian row = Hessian applied to a unit image`, symmetry and positive semi-definiteness cannot be had for this prior" % need)
+            n += 1
+    return n
+
+
+def rule_j_pls_neighbours_inside(ctx, fns):
+    """PLS works with forward/backward differences: every subscript c+1 / c-1 (c a loop variable) is evaluated only where a test of
+    c+1 against the loop's upper bound / c-1 against its first value has succeeded - border voxels interact only with neighbours
+    inside the image."""
+    from engine.cfg import relations
+
+    RULE = "C09.j-pls-neighbours-inside-image"
+    n = 0
+    seen = set()
+    for f in fns:
+        if f.body is None or not f.cfg_raw or (f.file, f.body.line) in seen:
+            continue
+        seen.add((f.file, f.body.line))
+        cfg = None
+        loops = {}
+        for lp in f.walk():
+            if lp.k == "ForStmt":
+                d = describe(lp, names=False)
+                if d:
+                    loops[d["d"]] = d
+        k_ = 0
+        for m in f.walk():
+            if not (m.k in ("CXXOperatorCallExpr", "ArraySubscriptExpr") and (m.k == "ArraySubscriptExpr" or m.op == "[]") and len(m.c) == 2):
+                continue
+            ik = key(m.c[1].strip())
+            mm = re.fullmatch(r"\((\+|-) v(\d+) 1\)", ik)
+            if not mm or int(mm.group(2)) not in loops:
+                continue
+            d = loops[int(mm.group(2))]
+            if cfg is None:
+                cfg = CFG(f)
+            at = m
+            while at is not None and at.i not in cfg.pos:
+                at = at.parent
+            rels = relations(cfg.facts_at(at)) if at is not None else set()
+            v = "v" + mm.group(2)
+            if mm.group(1) == "+":
+                up = d.get("upper")
+                ok = (ik, "<=", up) in rels or (v, "<", up) in rels
+                want = "%s <= %s" % (key(m.c[1].strip(), True), "the loop's upper bound")
+            else:
+                lo = d.get("init")
+                ok = (ik, ">=", lo) in rels or (v, ">", lo) in rels
+                want = "%s >= %s" % (key(m.c[1].strip(), True), "the loop's first value")
+            ctx.ob(RULE, f.qn.split("<")[0] + "/%d" % len(f.params), "subscript#%d:%s" % (k_, key(m.c[1].strip(), True)), ok, m.where(), "evaluated only where %s is known" % want if ok else "subscript %s is evaluated without a successful test %s on every path: a border voxel reads (or writes) an element outside the image" % (key(m.c[1].strip(), True), want))
+            k_ += 1
+            n += 1
+    return n
+
+
 def run(ctx):
     ctx.explanation = (
         "For QuadraticPrior, RelativeDifferencePrior and LogcoshPrior, decides: (a) in every neighbourhood loop the offset d along an axis "
@@ -679,7 +947,7 @@ def run(ctx):
     )
     ctx.assumptions += ["arrays are regular (the y/x ranges are taken from the current row, as the code itself assumes)", "neighbourhood weights are symmetric (w[-d] = w[d]); logcosh(d) = log(cosh(d))"]
     reqs = requests()
-    ctx.ex.prefetch(reqs)
+    ctx.ex.prefetch(reqs + [pls_request()])
     for (cls, _src), r in zip(PRIORS, reqs):
         u = ctx.ex.get(r)
         if u is None:
@@ -689,6 +957,26 @@ def run(ctx):
         rule_bc(ctx, cls, fns)
         rule_d_hessian_times_input(ctx, cls, fns)
         rule_e_one_neighbourhood(ctx, cls, fns)
+        rule_g_assigned_output_complete(ctx, cls, fns)
+    u = ctx.ex.get(pls_request())
+    if u is not None:
+        pls = insts(u)
+        rule_h_pls_kappa_travels_with_the_flux(ctx, pls)
+        rule_j_pls_neighbours_inside(ctx, pls)
+        rule_g_assigned_output_complete(ctx, "PLSPrior", pls)
+        by_cls = {}
+        recs = []
+        for (cls, _src), r in zip(PRIORS, reqs):
+            uu = ctx.ex.get(r)
+            if uu is not None:
+                by_cls["stir::" + cls] = insts(uu)
+                recs += [x for x in uu.records if x.get("qn") == "stir::" + cls]
+        by_cls["stir::PLSPrior"] = pls
+        recs += [x for x in u.records if x.get("qn") == "stir::PLSPrior"]
+        rule_i_convex_priors_have_hessians(ctx, recs, by_cls)
+        ctx.require_count("C09.h-pls-kappa-inside-the-divergence", 1)
+        ctx.require_count("C09.i-convex-prior-implements-its-hessian", 8)
+        ctx.require_count("C09.j-pls-neighbours-inside-image", 6)
     ctx.require_count("C09.a-neighbours-inside-image", 30)
     ctx.require_count("C09.b-weights-kappa-penalisation", 15)
     ctx.require_count("C09.c-calculus", 10)
